@@ -1,6 +1,8 @@
 import AnySyncModel.Tree.Model
 import AnySyncModel.Tree.Lemmas
 import AnySyncModel.Tree.WaitLemmas
+import AnySyncModel.Tree.ReduceLemmas
+import AnySyncModel.Tree.ReopenLemmas
 /-!
 C06 - change order is a function of the change set; incremental equals rebuilt.
 
@@ -200,6 +202,7 @@ theorem add_confluent_partial (t : T) (L1 L2 : List (List Change)) (r : Nat)
 /-- non-vacuity of `add_confluent`: the diamond on top of root `1`, delivered child-first -/
 example : SnapOK [⟨4, [2, 3], 1, false⟩, ⟨3, [1], 1, false⟩, ⟨2, [1], 1, false⟩]
     { root := some 1, att := [⟨1, [], 0, true⟩], lastIter := 1 } := by
+  refine ⟨by intro c hc; simp at hc; rcases hc with rfl | rfl | rfl <;> simp, ?_⟩
   intro t' _ hm c hc _
   have : c.snap = 1 := by
     simp at hc; rcases hc with rfl | rfl | rfl <;> rfl
@@ -209,11 +212,11 @@ example : CausalFor { root := some 1, att := [⟨1, [], 0, true⟩], lastIter :=
     [⟨2, [1], 1, false⟩, ⟨3, [1], 1, false⟩, ⟨4, [2, 3], 1, false⟩] := by
   intro l1 c l2 h
   match l1, h with
-  | [], h => simp at h; obtain ⟨rfl, _⟩ := h; exact ⟨by intro p hp; simp at hp; subst hp; left; decide, by left; decide⟩
-  | [_], h => simp at h; obtain ⟨rfl, rfl, _⟩ := h; exact ⟨by intro p hp; simp at hp; subst hp; left; decide, by left; decide⟩
+  | [], h => simp at h; obtain ⟨rfl, _⟩ := h; exact ⟨by intro p hp; simp at hp; subst hp; left; decide, by left; decide, by left; simp⟩
+  | [_], h => simp at h; obtain ⟨rfl, rfl, _⟩ := h; exact ⟨by intro p hp; simp at hp; subst hp; left; decide, by left; decide, by left; simp⟩
   | [_, _], h =>
     simp at h; obtain ⟨rfl, rfl, rfl, _⟩ := h
-    exact ⟨by intro p hp; simp at hp; rcases hp with rfl | rfl <;> (right; simp), by left; decide⟩
+    exact ⟨by intro p hp; simp at hp; rcases hp with rfl | rfl <;> (right; simp), by left; decide, by left; simp⟩
   | _ :: _ :: _ :: _ :: _, h => simp at h
 
 example :
@@ -277,22 +280,138 @@ theorem storage_order_causal (stored : List Nat) (root : Nat) (att news : List C
 example : storeInsert [1, 3] (iter 1 [⟨1, [], 0, true⟩, ⟨3, [1], 1, false⟩, ⟨2, [1], 1, false⟩, ⟨4, [2, 3], 1, false⟩])
     = [1, 2, 3, 4] := by decide
 
-/-- a view reduced to a later snapshot `s` is the restriction of the full order, *provided* every change below
-`s` has all its attached parents below-or-equal `s` (honest histories, DESIGN §3 Inv-S) -/
+/-- **reduced view**, full strength.  `Honest att root s` (`Tree/ReduceLemmas.lean`) is the honest-history proviso
+(DESIGN §3 Inv-S; same shape as `Sync.SnapInv` + `Sync.RootOk` of the abstract protocol, C01 `invS_always`):
+the snapshot base of a change is an ancestor-or-equal of it; every ancestor-or-equal of a change is comparable
+with its base; the previous ids of a change form an antichain (a local add names the current heads); and `s` lies
+on the snapshot chain of every head (what `reduceTree` computes).  Then the tree reduced to `s` - the changes at
+or below `s` - presents exactly the full sequence restricted to that view. -/
 def C06_reduced_view_full : Prop :=
-  ∀ (root s : Nat) (att : List Change), WFAtt att → root ∈ att.map (·.id) →
-    let below : Nat → Prop := fun y => Desc (children att) s y
-    (∀ c ∈ att, (∃ p ∈ c.prevs, below p) → ∀ p ∈ c.prevs, p ∈ att.map (·.id) → below p) →
-    ∀ sub : List Change, (∀ c, c ∈ sub ↔ (c ∈ att ∧ below c.id)) →
-      ∀ y z, y ∈ iter s sub → z ∈ iter s sub →
-        (pos (iter s sub) y < pos (iter s sub) z ↔ pos (iter root att) y < pos (iter root att) z)
+  ∀ (root s : Nat) (att : List Change), WFAtt att → Desc (children att) root s → Honest att root s →
+    ∀ below : Nat → Bool, (∀ y, below y = true ↔ Desc (children att) s y) →
+      iter s (att.filter (fun c => below c.id)) = (iter root att).filter below
 
-/-- why the proviso is needed: with a change (`4`) that has one parent below the later root `2` and one
+/-- the structural core: it suffices that the part of the tree below `s` is entered only through `s` -/
+theorem reduced_view_of_entry (root s : Nat) (att : List Change) (hwf : WFAtt att)
+    (hs : Desc (children att) root s) (below : Nat → Bool)
+    (hbelow : ∀ y, below y = true ↔ Desc (children att) s y)
+    (hentry : ∀ c ∈ att, below c.id = true → c.id ≠ s → ∀ p ∈ c.prevs, below p = true) :
+    iter s (att.filter (fun c => below c.id)) = (iter root att).filter below :=
+  reduced_view_struct root s att hwf hs below hbelow hentry
+
+/-- **reduced_view**: the full statement holds. -/
+theorem reduced_view : C06_reduced_view_full := by
+  intro root s att hwf hs hon below hbelow
+  apply reduced_view_struct root s att hwf hs below hbelow
+  intro c hc hb hne p hp
+  exact (hbelow p).mpr (honest_entry att root s hwf hs hon c hc ((hbelow c.id).mp hb) hne p hp)
+
+/-- non-vacuity of the proviso: `honestChain` (root `1`, snapshot `2` on top of it, a change `3` made after
+reducing to `2`) is honest for the reduction to `2` -/
+example : Honest honestChain 1 2 := by
+  have d12 : Desc (children honestChain) 1 2 := Desc.step (by decide) (Desc.refl _)
+  have d23 : Desc (children honestChain) 2 3 := Desc.step (by decide) (Desc.refl _)
+  have prevs : ∀ a, (∃ d ∈ honestChain, a ∈ d.prevs) → a = 1 ∨ a = 2 := by
+    rintro a ⟨d, hd, ha⟩
+    simp [honestChain] at hd
+    rcases hd with rfl | rfl | rfl <;> simp at ha <;> simp [ha]
+  refine ⟨?_, ?_, ?_, ?_⟩
+  · intro c hc hne
+    simp [honestChain] at hc
+    rcases hc with rfl | rfl | rfl
+    · exact absurd rfl hne
+    · exact d12
+    · exact d23
+  · intro c hc hne a ha
+    simp [honestChain] at hc
+    rcases hc with rfl | rfl | rfl
+    · exact absurd rfl hne
+    · rcases desc_is_prev ha with e | h
+      · right; rw [e]; exact d12
+      · rcases prevs a h with rfl | rfl
+        · left; exact Desc.refl _
+        · right; exact d12
+    · rcases desc_is_prev ha with e | h
+      · right; rw [e]; exact d23
+      · rcases prevs a h with rfl | rfl
+        · left; exact d12
+        · left; exact Desc.refl _
+  · intro c hc p hp q hq _
+    simp [honestChain] at hc
+    rcases hc with rfl | rfl | rfl <;> simp at hp hq <;> simp [hp, hq]
+  · intro h hd hh
+    have h3 : h = 3 := by
+      rcases desc_inv hd with e | ⟨c, hc, hr⟩
+      · rw [← e] at hh; exact absurd hh (by decide)
+      · have : c = 2 := by
+          have : children honestChain 1 = [2] := by decide
+          rw [this] at hc; simpa using hc
+        subst this
+        rcases desc_inv hr with e | ⟨c, hc, hr⟩
+        · rw [← e] at hh; exact absurd hh (by decide)
+        · have : c = 3 := by
+            have : children honestChain 2 = [3] := by decide
+            rw [this] at hc; simpa using hc
+          subst this
+          rcases desc_inv hr with e | ⟨c, hc, _⟩
+          · exact e.symm
+          · have : children honestChain 3 = [] := by decide
+            rw [this] at hc; simp at hc
+    subst h3
+    exact OnChainA.next (c := ⟨3, [2], 2, false⟩) (by simp [honestChain]) (by decide) OnChainA.here
+
+/-- an instance: root `1`, snapshot `2`, two branches below it; reduced to `2` -/
+example :
+    iter 2 ([⟨1, [], 0, true⟩, ⟨2, [1], 1, true⟩, ⟨3, [2], 1, false⟩, ⟨4, [2], 2, false⟩, ⟨5, [3, 4], 2, false⟩].filter
+      (fun c => c.id != 1))
+    = (iter 1 [⟨1, [], 0, true⟩, ⟨2, [1], 1, true⟩, ⟨3, [2], 1, false⟩, ⟨4, [2], 2, false⟩, ⟨5, [3, 4], 2, false⟩]).filter
+      (fun y => y != 1) := by decide
+
+/-- why the proviso is needed (1): with a change (`4`) that has one parent below the later root `2` and one
 parent (`3`) outside, the order from `2` is not the restriction of the order from `1`. Such a change cannot
-arise in an honest history (its creator's root would be `1`, so nobody holding it reduces to `2`). -/
+arise in an honest history (its creator's root would be `1`, so nobody holding it reduces to `2`): `rootOk`/`comp`
+fail. -/
 example :
     iter 1 [⟨1, [], 0, true⟩, ⟨2, [1], 1, true⟩, ⟨3, [1], 1, false⟩, ⟨5, [2], 2, false⟩, ⟨4, [2, 3], 2, false⟩]
       = [1, 2, 5, 3, 4] ∧
     iter 2 [⟨2, [1], 1, true⟩, ⟨5, [2], 2, false⟩, ⟨4, [2, 3], 2, false⟩] = [2, 4, 5] := by decide
+
+/-- why the proviso is needed (2): the antichain condition. `2` names the snapshot `1` and also `1`'s ancestor,
+the root `3` (a redundant edge; found on the real `Tree` in round 1): Inv-S as worded in DESIGN §3 holds, yet
+from `3` the order is `3,1,4,2` and from `1` it is `1,2,4` - not the restriction `1,4,2`. -/
+example :
+    iter 3 [⟨3, [], 0, true⟩, ⟨1, [3], 3, true⟩, ⟨2, [1, 3], 1, false⟩, ⟨4, [1], 1, false⟩] = [3, 1, 4, 2] ∧
+    iter 1 [⟨1, [3], 3, true⟩, ⟨2, [1, 3], 1, false⟩, ⟨4, [1], 1, false⟩] = [1, 2, 4] := by decide
+
+/-! ### reopen = before close
+
+`buildFromStorage stored r` (= `treeBuilder.build`: load the stored sequence from the root snapshot on, `AddFast` it
+into an empty tree).  `StoredFor A r rootC rest` (`Tree/ReopenLemmas.lean`) says what the storage holds for an
+in-memory tree with attached changes `A` and root `r`: the loaded sequence `rootC :: rest` has unique ids, contains
+every in-memory change after its previous ids and its snapshot base (the stored order is a linear extension -
+`storage_order_causal` - and `attach` requires the snapshot base), and a stored change that is not in memory is not
+attachable to what is in memory. -/
+
+/-- **reopen**, full strength: the tree built from storage has the root, the attached set, the presented sequence,
+the heads and the last iterated head of the in-memory tree that produced the storage. -/
+def C06_reopen_full : Prop :=
+  ∀ (A : List Change) (r : Nat) (stored : List Change) (rootC : Change) (rest : List Change),
+    stored.dropWhile (·.id != r) = rootC :: rest → StoredFor A r rootC rest →
+    (buildFromStorage stored r).root = some r ∧ (buildFromStorage stored r).att.Perm A ∧
+    (buildFromStorage stored r).unatt = [] ∧
+    iter r (buildFromStorage stored r).att = iter r A ∧
+    headsOf (buildFromStorage stored r).att (iter r (buildFromStorage stored r).att) = headsOf A (iter r A) ∧
+    (buildFromStorage stored r).lastIter = lastOf (headsOf A (iter r A)) r
+
+theorem reopen_eq : C06_reopen_full :=
+  fun A r stored rootC rest hload h => reopen_same A r stored rootC rest hload h
+
+/-- an instance: the storage holds root `1`, snapshot `2`, a concurrent branch `5` off the root and `3` below the
+snapshot; the tree reduced to `2` is rebuilt as `2,3` - the stored change `5` is loaded but not attachable -/
+example :
+    let stored : List Change := [⟨1, [], 0, true⟩, ⟨2, [1], 1, true⟩, ⟨5, [1], 1, false⟩, ⟨3, [2], 2, false⟩]
+    (buildFromStorage stored 2).root = some 2 ∧ (buildFromStorage stored 2).att.map (·.id) = [2, 3] ∧
+    iter 2 (buildFromStorage stored 2).att = [2, 3] ∧ (buildFromStorage stored 2).lastIter = 3 ∧
+    iter 1 (buildFromStorage stored 1).att = [1, 2, 3, 5] := by decide
 
 end AnySync.Props.C06
